@@ -1675,7 +1675,11 @@ func (vc *VC) inlineAsserts(fr *Frame, st *State, ins ssa.Instruction, fired map
 		}
 		if cl.Kind == "assert" {
 			vc.oblige(st, "assert", fmt.Sprintf("%s#assert%d", funcKey(fr.fn), i+1), "assertion at \""+cl.Match+"\": "+cl.Src, pos, t)
-			vc.assume(st, t)
+			if t != "false" {
+				// a literally false assertion (e.g. a lock that is not held) is reported; assuming it would
+				// make the rest of the function unreachable and hide everything after it
+				vc.assume(st, t)
+			}
 		} else {
 			vc.eng.usedTrusted["assume in "+funcKey(fr.fn)+" at \""+cl.Match+"\": "+cl.Src] = true
 			vc.assume(st, t)
